@@ -171,14 +171,14 @@ PROPS["C13"] = dict(
 )
 
 PROPS["C06"] = dict(
-    units=["xbin_compress", "xbin_load"],
+    units=["xbin_compress", "xbin_load", "xbin_save"],
     trusted_base=COMMON_TRUST + [
         "Buffer::get_char is used through its contract r == comp(stack, pos) proved in unit `composite` (imported as an assumed contract here)",
         "TextAttribute::as_u8 is an uninterpreted function attr_byte(fg, bg, attr flags, ice mode): assumed to read exactly those four values (not the font page)",
         "`Compression as u8` discriminants as Verus translates the #[repr(u8)] enum; picture at most 65535 x 65535 (the header stores u16 sizes)",
     ],
     unverified_remainder=["count_length (the cost look-ahead) is proved terminating and overflow-free only: no functional contract is needed, the run-ending decisions are free choices in the proof",
-                          "XBin::to_bytes around the compressor (header, palette, font blocks, SAUCE append: 'nothing but the optional SAUCE record follows the last row') is not under contract",
+                          "XBin::to_bytes (unit xbin_save): font table and palette are opaque stubs (O1), so the *contents* of the palette / font blocks are not decided there, only their lengths; write_sauce_info is an assumed append-only frame",
                           "the link 'rows_ok(bytes) ==> xb_wf(bytes) and xb_cells(bytes) == the row cells in order' between the two units is lemma_decodes_wf per row; the concatenation over rows is not stated as a lemma"],
     explanation="compress_backtrack is proved against an independent decoder specification written from doc/FileFormats/x_bin.htm (decodes_to): the bytes it appends are, row by row, "
                 "a whole number of runs of 1..=64 cells that decode to exactly the `width` (character byte, attribute byte) pairs the uncompressed writer would emit for that row "
@@ -190,13 +190,13 @@ PROPS["C06"] = dict(
 
 
 PROPS["C05"] = dict(
-    units=["xbin_load", "bin_load"],
+    units=["xbin_load", "bin_load", "xbin_save"],
     kani_quick=["c18_attr_byte_roundtrip", "c18_attr_tuple_roundtrip"],
     trusted_base=LOADER_TRUST + [
         "Buffer::new / Layer::new / Line::create: one unlocked visible layer pre-filled with `height` rows of `width` invisible cells (read from the code, assumed as vx_buffer_new)",
         "Buffer::set_sauce, Palette::from_63 assignment, BitFont::create_8 / set_font / clear_font_table are opaque statements (O1) with frame-only contracts",
     ],
-    unverified_remainder=["readers under contract: XBin, BIN, ADF. NOT decided: every writer (to_bytes of XBin, BIN, ADF, IDF, Tundra) and the IDF and Tundra readers - so the round trip itself is decided only up to 'what the reader does with the bytes'",
+    unverified_remainder=["readers under contract: XBin, BIN, ADF; writers under contract: XBin (header, flags, image block, nothing after it without SAUCE). NOT decided: to_bytes of BIN, ADF, IDF, Tundra and the IDF and Tundra readers",
                           "for pictures higher than 25 rows the loaded height is proved <= the header height, equality needs the data to be complete (not stated)",
                           "palette and font block contents (from_63 is proved in unit palette; glyph data in C17)"],
     explanation="XBin::load_buffer is proved total on every byte string up to 16 MiB and to return the header's width, a height equal to the header's for pictures of at most 25 rows "
